@@ -315,3 +315,54 @@ Proof.
   - inversion Ha; subst. apply increasing_all in H2. rewrite Forall_forall in H2. apply H2. eapply nth_error_In; eauto.
   - apply (IH n H2 i j a b); [lia|exact Ha|exact Hb].
 Qed.
+
+(* ---------------------------------------------------------------- numbering the listed headings only = numbering the
+   whole document and keeping the listed ones, when no level is skipped on the way down *)
+Fixpoint wellnested (depth : nat) (levels : list Z) : bool :=
+  match levels with
+  | [] => true
+  | l :: r => (1 <=? l) && (l <=? Z.of_nat depth + 1) && wellnested (Z.to_nat l) r
+  end.
+
+Lemma pad1_firstn p : forall o prev, (p < o)%nat ->
+  pad1 p (firstn o prev) = pad1 p prev /\ nth p (firstn o prev) 0 = nth p prev 0.
+Proof.
+  induction p as [|p IH]; intros [|o] [|x r] H; try lia; cbn [firstn pad1 nth]; auto.
+  destruct (IH o r ltac:(lia)) as [A B]. split; [now rewrite A|exact B].
+Qed.
+Lemma firstn_pad1 o : forall p prev tl, (o <= p)%nat -> (o <= length prev)%nat ->
+  firstn o (pad1 p prev ++ tl) = firstn o prev.
+Proof.
+  induction o as [|o IH]; intros p prev tl H1 H2; [reflexivity|].
+  destruct p as [|p]; [lia|]. destruct prev as [|x r]; [cbn in H2; lia|].
+  cbn [pad1 app firstn]. f_equal. apply IH; cbn in H2; lia.
+Qed.
+Lemma next_number_len prev l : 1 <= l -> length (next_number prev l) = Z.to_nat l.
+Proof. intros H. pose proof (next_number_length prev l H). lia. Qed.
+
+Theorem filter_commutes levels : forall prev ol, 0 <= ol -> wellnested (length prev) levels = true ->
+  map snd (filter (fun p => fst p <=? ol) (combine levels (outline_numbers prev levels)))
+  = outline_numbers (firstn (Z.to_nat ol) prev) (filter (fun l => l <=? ol) levels).
+Proof.
+  induction levels as [|l r IH]; intros prev ol Ho W; [reflexivity|].
+  cbn [wellnested] in W. apply andb_true_iff in W as [W W3]. apply andb_true_iff in W as [W1 W2].
+  cbn [outline_numbers combine filter fst].
+  pose proof (next_number_len prev l ltac:(lia)) as Ln.
+  destruct (l <=? ol) eqn:E.
+  - cbn [map snd outline_numbers].
+    assert (Hp : (level_pos l < Z.to_nat ol)%nat) by (unfold level_pos; lia).
+    destruct (pad1_firstn _ _ prev Hp) as [A B].
+    assert (En : next_number (firstn (Z.to_nat ol) prev) l = next_number prev l).
+    { unfold next_number. now rewrite A, B. }
+    rewrite En. f_equal.
+    rewrite (IH (next_number prev l) ol Ho) by (now rewrite Ln).
+    f_equal. apply firstn_all2. lia.
+  - rewrite (IH (next_number prev l) ol Ho) by (now rewrite Ln).
+    f_equal. unfold next_number. apply firstn_pad1; unfold level_pos; lia.
+Qed.
+
+(* the restriction is necessary: levels 1,3,2 with outline 2 *)
+Example filter_first_differs_when_a_level_is_skipped :
+  map snd (filter (fun p => fst p <=? 2) (combine [1; 3; 2] (outline_numbers [] [1; 3; 2]))) = [[1]; [1; 2]] /\
+  outline_numbers [] (filter (fun l => l <=? 2) [1; 3; 2]) = [[1]; [1; 1]].
+Proof. split; reflexivity. Qed.
